@@ -71,3 +71,17 @@ Theorem C16_end_to_end_checked_hypotheses :
         check_C04 nw out = [] /\ check_C05 nw out = [].
 Proof. exact end_to_end_checked. Qed.
 Print Assumptions C16_end_to_end_checked_hypotheses.
+
+(** the optimisation stage as a function (TOpt.v): what it hands back is a valid transition over the vehicles of the
+    local-search result (so it can be "carried" by the answer), type by type not worse than the search result's own
+    cycles; and the pipeline with the modelled optimiser is an instance of the pipeline of the product theorem above *)
+From RS Require Import LocalSearch TOpt PipelineOptStmts PipelineOptFacts.
+Theorem C16_optimiser_result_is_valid : forall nw, stmt_optimised_trans_valid nw.
+Proof. exact optimised_trans_valid. Qed.
+Print Assumptions C16_optimiser_result_is_valid.
+Theorem C16_optimiser_result_not_worse : forall nw, stmt_optimised_not_worse nw.
+Proof. exact optimised_not_worse. Qed.
+Print Assumptions C16_optimiser_result_not_worse.
+Theorem C16_modelled_pipeline_is_the_pipeline : forall nw, stmt_pipeline_result_opt_is_pipeline_result nw.
+Proof. exact pipeline_result_opt_is_pipeline_result. Qed.
+Print Assumptions C16_modelled_pipeline_is_the_pipeline.
